@@ -47,11 +47,15 @@ structure Filter where
   req : List Acct
 deriving DecidableEq, Repr
 
-/-- constants taken from the tree (Generated.Consts) -/
+/-- constants taken from the tree (Generated.Consts), and one measured fact about the address-index reader -/
 structure Params where
   epochLen : Nat
   batch : Nat
   maxSlots : Nat
+  /-- does `iterBeforeUntilSlot` leave out entries at or above `before`?  The pinned tree does not (it only uses
+  `before` to select epochs); fix C07-2 makes it an exclusive upper bound.  The harness measures this on the real
+  reader and passes it on the `world` line; the theorems hold for both values. -/
+  honourBefore : Bool
 
 /-! ## the property's predicate -/
 
@@ -183,12 +187,13 @@ def readers (P : Params) (es : List Epoch) (lo hi : Nat) : List Epoch :=
   (es.filter (fun e => lo / P.epochLen ≤ e.num && e.num ≤ hi / P.epochLen)).reverse
 
 /-- `iterBeforeUntilSlot`: epochs newer than the epoch of `before` are skipped, then the newest-first walk stops at
-the first entry below `untl` or when `limit` entries have been collected.  `before` is otherwise not looked at. -/
+the first entry below `untl` (`break epochLoop`), passes over entries at or above `before` when the reader honours it
+(`continue`), and ends when `limit` entries have been collected. -/
 def iterBeforeUntilSlot (P : Params) (rs : List Epoch) (a : Acct) (limit before untl : Nat) : List Tx :=
   if limit = 0 ∨ before < untl then []
   else
-    ((((rs.filter (fun e => e.num ≤ before / P.epochLen)).flatMap (fun e => epochHistory e a)).takeWhile
-        (fun t => untl ≤ t.slot))).take limit
+    (((((rs.filter (fun e => e.num ≤ before / P.epochLen)).flatMap (fun e => epochHistory e a)).takeWhile
+        (fun t => untl ≤ t.slot))).filter (fun t => !P.honourBefore || t.slot < before)).take limit
 
 /-! ## txBuffer -/
 
